@@ -333,6 +333,7 @@ pub mod life {
         life_proof!(life_state_n5, State<NL>, 5, P11, 7);
         life_proof!(life_state_n4_check, State<CheckLock>, 4, P11, 6);
         life_proof!(life_c17_mpmc_n4, Mpmc<NL>, 4, P17, 6);
+        life_proof!(life_c17_state_n3, State<NL>, 3, P17, 5);
         life_proof!(life_c17_state_n4, State<NL>, 4, P17, 6);
 
         #[kani::proof]
